@@ -432,6 +432,10 @@ def run(ctx) -> None:
     r2_owner(ctx)
     r3_bundled(ctx)
     r4_helpers(ctx)
+    ctx.rule("C10.R5", "std constants name the std type instantiated with their own parameters and its extension (shared with C14.R3)", floor=20)
+    from .c14 import r3_std_constants
+    with ctx.as_rule(C14_R3="C10.R5"):
+        r3_std_constants(ctx, nf)
     from .. import lints
     lints.arm(ctx)
 
